@@ -284,6 +284,7 @@ func (m *Markdown) renderTable(w io.Writer, n *east.Table, src []byte) error {
 	return m.renderTemplate(w, "table", map[string]any{
 		"headers": headers,
 		"rows":    rows,
+		"hasRows": len(rows) > 0,
 	})
 }
 
